@@ -85,6 +85,14 @@ def call_sets(logic, modal, quantified, classical, vals, rng, n):
         sets.append([{'op': 'access', 'w': 0, 'w2': 1, 's': [], 'v': ''}, {'op': 'access', 'w': 0, 'w2': 2, 's': [], 'v': ''},
                      {'op': 'pred', 'w': 1, 'w2': -1, 's': P(F1, a), 'v': T},
                      {'op': 'pred', 'w': 2, 'w2': -1, 's': P(F1, b), 'v': vals[len(vals) // 2]}])
+        # longer access chains (closure needs more than one sweep), added in an order that is not the path order
+        sets.append([{'op': 'access', 'w': 2, 'w2': 3, 's': [], 'v': ''}, {'op': 'access', 'w': 0, 'w2': 1, 's': [], 'v': ''},
+                     {'op': 'access', 'w': 1, 'w2': 2, 's': [], 'v': ''},
+                     {'op': 'atomic', 'w': 3, 'w2': -1, 's': A(0), 'v': vals[0]},
+                     {'op': 'atomic', 'w': 0, 'w2': -1, 's': A(0), 'v': T}])
+        sets.append([{'op': 'access', 'w': 3, 'w2': 4, 's': [], 'v': ''}, {'op': 'access', 'w': 1, 'w2': 2, 's': [], 'v': ''},
+                     {'op': 'access', 'w': 0, 'w2': 1, 's': [], 'v': ''}, {'op': 'access', 'w': 2, 'w2': 3, 's': [], 'v': ''},
+                     {'op': 'pred', 'w': 4, 'w2': -1, 's': P(F1, a), 'v': vals[0]}])
         if classical:
             # identity facts that differ between worlds: congruence is per world
             sets.append([{'op': 'pred', 'w': 1, 'w2': -1, 's': P(F1, a), 'v': T},
